@@ -107,6 +107,7 @@ contract(
 # accumulators >= 2**30; z3 leaves the nonlinear obligation over a <= 32767*n undecided, so the fixed witness is
 # re-evaluated natively on every run (bounded stand-in, never counted as proved).
 def _d2_witness(tier, seed):
+    from pyvc import replay as _rp
     from ethosu.vela.scaling import quantise_pooling_scale
     n, a = 135 * 247, 1092598942  # a 135x247 window of int16 values near full scale
     scale, shift = quantise_pooling_scale(n)
@@ -115,9 +116,9 @@ def _d2_witness(tier, seed):
     out = dict(name="quantise_pooling_scale 16-bit window witness", bound="1 fixed input (n=135*247=33345, a=1092598942 <= 32767*n)", cases=1,
                label="bounded", violations=[], known_lines=[])
     if got != want:
-        out["known_lines"].append(
-            "KNOWN-FINDING: property=C09 D2 quantise_pooling_scale(135*247): accumulator 1092598942 (>= 2**30, reachable by a 16-bit "
-            "135x247 window) scales to %d, round-half-up division gives %d" % (got, want))
+        _rp.report_bounded_finding(
+            out, "C09", "D2", "quantise_pooling_scale(135*247): accumulator 1092598942 (>= 2**30, reachable by a 16-bit "
+            "135x247 window) scales to %d, round-half-up division gives %d" % (got, want), dict(n=n, a=a, scale=scale, shift=shift))
     return out
 
 
